@@ -147,7 +147,7 @@ def check_mgs_answer(ctx, kw, scale, r, rep):
 
 
 def mgs_engine(ctx):
-    n = ctx.budget(150, 4000)
+    n = ctx.budget(500, 6000)
     reqs_pre = []; pre_cases = []
     for i in range(n):
         rng = ctx.rng("mgs", i)
@@ -271,7 +271,7 @@ def witness_probes(ctx):
 
 def msc_engine(ctx):
     import flowpaths as fp
-    n = ctx.budget(200, 5000)
+    n = ctx.budget(500, 8000)
     for i in range(n):
         rng = ctx.rng("msc", i)
         kw = gen2.rand_msc(rng)
